@@ -482,6 +482,7 @@ def plainStmt : Stmt → Bool
   | .query (.select d its frm wh grp hav) br => fragPlainSelect (.query (.select d its frm wh grp hav) br)
   | .drop _ _ _ => true
   | .noop _ _ => true
+  | .createTableLike _ _ => true
   | _ => false
 
 theorem analyze_holderOK_plain (env : Env) (silent : Bool) (s : Stmt) (hs : plainStmt s = true) (g : LGraph)
@@ -530,7 +531,26 @@ theorem analyze_holderOK_plain (env : Env) (silent : Bool) (s : Stmt) (hs : plai
   | ctas _ _ _ _ _ => simp [plainStmt] at hs
   | createView _ _ _ _ => simp [plainStmt] at hs
   | createTable _ _ _ => simp [plainStmt] at hs
-  | createTableLike _ _ => simp [plainStmt] at hs
+  | createTableLike tgt src =>
+    -- `CREATE TABLE tgt LIKE src`: the holder is g0(tgt) after one read, its only edge is the alias edge of `src`
+    have hTR : ∀ o ∈ [mkTable env src none], isTabRef o = true := by
+      intro o ho; simp only [List.mem_singleton] at ho; rw [ho]; rfl
+    obtain ⟨hb, hbE⟩ := readBase (mkTable env tgt none) (mkTable_isTable env tgt none) [mkTable env src none] hTR
+    have hg0 : g = [mkTable env src none].foldl addReadO (g0 (mkTable env tgt none)) ∨ g = Graph.empty := by
+      unfold analyze at hg
+      split at hg
+      · split at hg <;> simp at hg
+        exact Or.inr hg.symm
+      · simp at hg; exact Or.inl hg.symm
+    rcases hg0 with rfl | rfl
+    · refine ⟨holderOK_of_noColSrc _ ?_, hb.wf.edges⟩
+      intro u v he
+      refine ⟨hb.noColSrc u v he, ?_⟩
+      obtain ⟨o, _, a, _, hu, hv⟩ := (hbE u v).mp he
+      rw [hb.ty u v he, hu, hv]
+      simp [ColumnsExact.kind, Node.isCol]
+    · refine ⟨holderOK_of_noColSrc _ (by intro u v he; cases he), ?_⟩
+      intro e he; cases he
   | update _ _ _ _ _ => simp [plainStmt] at hs
   | merge _ _ _ _ _ _ => simp [plainStmt] at hs
   | copy _ _ => simp [plainStmt] at hs
